@@ -146,6 +146,7 @@ type DocOpts struct {
 	FontKinds          []string
 	NoEmptyPages       bool
 	FontWidths         bool // simple fonts may carry explicit /Widths (seed-chosen)
+	ExactKinds         bool // one font per entry of FontKinds, in that order
 }
 
 // GenResult is a generated logical document plus the oracle's view.
@@ -219,8 +220,15 @@ func GenDoc(r *rand.Rand, o DocOpts) *GenResult {
 		kinds = FontKinds
 	}
 	nf := 1 + r.Intn(max1(o.MaxFonts))
+	if o.ExactKinds {
+		nf = len(kinds)
+	}
 	for i := 0; i < nf; i++ {
-		gf := NewGenFont(i+1, kinds[r.Intn(len(kinds))], r)
+		kind := kinds[r.Intn(len(kinds))]
+		if o.ExactKinds {
+			kind = kinds[i]
+		}
+		gf := NewGenFont(i+1, kind, r)
 		if o.FontWidths && gf.Kind != "type0-identity" && r.Intn(2) == 0 {
 			for c := 32; c <= 255; c++ {
 				gf.Widths = append(gf.Widths, 200+r.Intn(800))
